@@ -181,7 +181,8 @@ def run(ctx):
                     case = {"op": "malformed", "kind": kind, "edit": op, "key": key, "depth": depth}
                     ctx.case(case); ctx.count(f"malformed_{op}")
                     corr(wrapped)
-                    for via in ("dict", "file"):
+                    vias = ["dict", "file", "file_noversion"] + (["file_softlink", "file_hardlink"] if op == "insert" else [])
+                    for via in vias:
                         try:
                             if via == "dict":
                                 if kind == "NIRGraph" and depth == 0:
@@ -192,8 +193,21 @@ def run(ctx):
                                 if key in ("nodes", "edges", "type") and op == "delete" and False:
                                     continue
                                 p = os.path.join(tmpdir, "m.nir")
-                                if not _write_raw(p, wrapped):
+                                if via in ("file_softlink", "file_hardlink"):
+                                    # the unknown member is a *link* to one of the node's own datasets
+                                    others = [k for k, v in d.items() if k != key and not isinstance(v, (dict, str)) and v is not None]
+                                    if not others:
+                                        continue
+                                    link = (key, rng.choice(others), via == "file_softlink")
+                                    plain = copy.deepcopy(base)
+                                    w2 = plain
+                                    for lvl in range(depth):
+                                        w2 = {"type": "NIRGraph", "nodes": {"inner": w2, "pad": copy.deepcopy(victims["Scale"])}, "edges": []}
+                                    if not _write_raw(p, w2, link=link, depth=depth):
+                                        continue
+                                elif not _write_raw(p, wrapped, with_version=(via != "file_noversion")):
                                     continue
+                                ctx.count("malformed_via_" + via)
                                 obj = nir.read(p)
                             ctx.violate(case, f"{kind}: {'missing mandatory' if op == 'delete' else 'unknown extra'} field "
                                         f"{key!r} was {'defaulted' if op == 'delete' else 'ignored'} ({via})",
@@ -225,8 +239,9 @@ def _store(group, node, fixed=False):
             group.create_dataset(k, data=v)
 
 
-def _write_raw(path, d):
-    """store an arbitrary (possibly malformed) node dictionary with raw h5py"""
+def _write_raw(path, d, with_version=True, link=None, depth=0):
+    """store an arbitrary (possibly malformed) node dictionary with raw h5py; `link` = (name, target member,
+    soft?) adds a link member to the innermost node group"""
     def rec(group, node):
         for k, v in node.items():
             if isinstance(v, dict):
@@ -240,7 +255,18 @@ def _write_raw(path, d):
         return True
     try:
         with h5py.File(path, "w") as f:
-            f.create_dataset("version", data="0.2.0")
-            return rec(f.create_group("node"), d) is not False
+            if with_version:
+                f.create_dataset("version", data="0.2.0")
+            ok = rec(f.create_group("node"), d) is not False
+            if ok and link is not None:
+                grp = f["node"]
+                for _ in range(depth):
+                    grp = grp["nodes/inner"]
+                name, target, soft = link
+                if soft:
+                    grp[name] = h5py.SoftLink(grp[target].name)
+                else:
+                    grp[name] = grp[target]
+            return ok
     except Exception:
         return False
